@@ -857,7 +857,8 @@ func (x *Exec) doAppend(fr *Frame, st *State, in ssa.Instruction, s, t Val) Val 
 				Upd{guard: guardOf(sNot(fits)), bulk: true, arr: nr, lo: s.Len, n: m, src: snap, srcArr: tarr, srcOff: toff})
 		}
 	}
-	st.hv++
+	// an append to a slice this activation allocated writes only fresh memory (in place or after reallocation)
+	st.bumpWrite(s.Arr, nil)
 	st.addIdxSeq(sAdd(s.Off, s.Len), s.Arr)
 	arrT := x.decls.Define("app.arr", "Int", sIte(fits, s.Arr, nr))
 	if arrT != s.Arr {
@@ -888,13 +889,13 @@ func (x *Exec) doCopy(st *State, dst, src Val) Val {
 		n := sMin(dst.Len, src.Len)
 		snap := cur.clone()
 		cur.ups = append(cur.ups, Upd{bulk: true, arr: dst.Arr, lo: dst.Off, n: n, src: snap, srcArr: src.Arr, srcOff: src.Off})
-		st.hv++
+		st.bumpWrite(dst.Arr, nil)
 		return intVal(n, types.Typ[types.Int])
 	case KStr:
 		n := sMin(dst.Len, x.strlen(src.S))
 		hv := x.decls.Fresh("strbytes", "(Array Int (Array Int Int))")
 		cur.ups = append(cur.ups, Upd{arr: dst.Arr, lo: dst.Off, n: n, havoc: []string{hv}})
-		st.hv++
+		st.bumpWrite(dst.Arr, nil)
 		return intVal(n, types.Typ[types.Int])
 	}
 	return opaque(types.Typ[types.Int], "copy from "+kindName(src.K))
